@@ -744,6 +744,54 @@ def rule_k15(repo):
     return res
 
 
+def rule_k16(repo):
+    """A[s] |- B[s]: the two instantiation rules apply to every hypothesis the same operation, with the same
+    argument, as to the conclusion - unconditionally.  Skipping the operation for hypotheses that "have nothing to
+    instantiate" relies on a helper to decide that (get_stvars does not look into the types of schematic variables),
+    and hypothesis and conclusion then speak about different variables."""
+    res = RuleResult('C01.K16', 'an instantiation rule applies to every hypothesis exactly the operation it applies to the conclusion', floor=2)
+    for fn in ('subst_type', 'substitution'):
+        func = repo.func(THM, 'Thm.' + fn)
+        flow = flow_of(func.node)
+        th = theorem_params(func)
+        need(len(th) == 1, 'Thm.%s: one theorem premise expected' % fn)
+        rets = thm_returns(func)
+        need(rets, 'Thm.%s has no `return Thm(...)`' % fn)
+        problems = []
+        for r, call in rets:
+            if len(call.args) < 2:
+                problems.append('line %d: the result has no hypotheses' % r.lineno)
+                continue
+
+            def value_of(e):
+                if isinstance(e, ast.Name) and flow.is_local(e.id) and len(flow.defs.get(e.id, [])) == 1:
+                    return flow.defs[e.id][0][1]
+                return e
+            prop, hyps = value_of(call.args[0]), value_of(call.args[1])
+            if not (isinstance(prop, ast.Call) and isinstance(prop.func, ast.Attribute) and src(prop.func.value, 40) == th[0] + '.prop'):
+                problems.append('line %d: the conclusion is not `%s.prop.<op>(..)`' % (r.lineno, th[0]))
+                continue
+            op, opargs = prop.func.attr, [src(a, 60) for a in prop.args]
+            gen = hyps.args[0] if isinstance(hyps, ast.Call) and call_name(hyps) in ('tuple', 'list') and hyps.args else hyps
+            if not (isinstance(gen, (ast.GeneratorExp, ast.ListComp)) and len(gen.generators) == 1 and
+                    src(gen.generators[0].iter, 40) == th[0] + '.hyps' and isinstance(gen.generators[0].target, ast.Name)):
+                problems.append('line %d: the hypotheses are not built by one pass over `%s.hyps`' % (r.lineno, th[0]))
+                continue
+            hv = gen.generators[0].target.id
+            if gen.generators[0].ifs:
+                problems.append('line %d: hypotheses are filtered (`if %s`)' % (r.lineno, src(gen.generators[0].ifs[0], 40)))
+            e = gen.elt
+            same = isinstance(e, ast.Call) and isinstance(e.func, ast.Attribute) and is_name(e.func.value, hv) and e.func.attr == op and \
+                [src(a, 60) for a in e.args] == opargs
+            if not same:
+                problems.append('line %d: each hypothesis becomes `%s`, the conclusion `%s`' % (r.lineno, src(e, 60), src(prop, 50)))
+        res.add('%s :: Thm.%s :: same-operation-on-hypotheses' % (THM, fn), not problems,
+                'every hypothesis and the conclusion go through the same call' if not problems else
+                '; '.join(problems) + ' -- a hypothesis that keeps its schematic (type) variables no longer mentions the variables of the conclusion, '
+                'and the side condition of forall_intr / abstraction does not see them', func.loc)
+    return res
+
+
 def rules(repo):
     return [rule_k1(repo), rule_k2(repo), rule_k3(repo), rule_k4(repo), rule_k5(repo), rule_k6(repo),
-            rule_k8(repo), rule_k9(repo), rule_k10(repo), rule_k11(repo), rule_k12(repo), rule_k13(repo), rule_k14(repo), rule_k15(repo)]
+            rule_k8(repo), rule_k9(repo), rule_k10(repo), rule_k11(repo), rule_k12(repo), rule_k13(repo), rule_k14(repo), rule_k15(repo), rule_k16(repo)]
